@@ -185,7 +185,7 @@ _EXTRA = {
  "C09": "Whole-transaction theorem (C09_emergency_withdrawal_transaction_moves_exactly_these_balances): every bank balance after an emergency withdrawal. Monitor mon_C09 (the owner receives between 10% and 100%; a regular withdrawal returns all).",
  "C12": "Transaction-level forms: the Simulation on the state before a swap transaction gives exactly the receiver's gain, the collector's gain and what leaves the pool manager (C12_quote_is_what_the_swap_transaction_pays); SimulateSwapOperations gives exactly what the route transaction sends the receiver (C12_route_quote_is_what_the_route_transaction_pays). Monitor mon_C12 on the implementation: a swap / route executed right after its quote pays the receiver the quoted amount, and a direct swap REPORTS (event attributes) exactly the quoted return, spread and fee amounts.",
  "C16": "Whole-transaction theorem (C16_creation_transaction_moves_exactly_these_balances): the attached funds go to the pool manager, out of which exactly the creation fee goes to the collector and exactly the token-factory fee is destroyed; no other balance changes.",
- "C01": "THE EXCESS CLAUSE is now proved transaction by transaction as exact equalities on (balance - reserves), per denom (TxExcess.v, theorems C01_excess_through_a_swap / _route / _withdrawal / _deposit / _single_asset_deposit / _donation): a swap or a withdrawal leaves the excess exactly unchanged (unless the trader names the pool manager itself as receiver or the owner made it its own fee collector), a first deposit adds exactly the minimum liquidity in the LP denom, an unlocked single-asset deposit adds exactly (amount mod 2) in the deposit denom - the odd unit -, a bank send adds what was sent. The same equalities for locked deposits and pool creations are checked on the implementation by mon_C04 / mon_C01x.",
+ "C01": "OVER HISTORIES (ExcessLedger.v, C01_excess_is_exactly_donations_plus_odd_units): after any history of the core pool operations (swaps, routes, withdrawals, unlocked deposits of one or several assets, bank sends, block changes, faults, rejected operations) the excess in every non-LP denom is EXACTLY the initial excess plus the ledger, whose entries are only plain bank sends to the contract and the single unit of accepted odd single-asset deposits (kernel-evaluated example included). THE EXCESS CLAUSE is also proved transaction by transaction as exact equalities on (balance - reserves), per denom (TxExcess.v, theorems C01_excess_through_a_swap / _route / _withdrawal / _deposit / _single_asset_deposit / _donation): a swap or a withdrawal leaves the excess exactly unchanged (unless the trader names the pool manager itself as receiver or the owner made it its own fee collector), a first deposit adds exactly the minimum liquidity in the LP denom, an unlocked single-asset deposit adds exactly (amount mod 2) in the deposit denom - the odd unit -, a bank send adds what was sent. The same equalities for locked deposits and pool creations are checked on the implementation by mon_C04 / mon_C01x.",
  "C17": "The frame is also proved for WHOLE TRANSACTIONS (FrameChain.v, C17_accepted_transactions_are_unaffected_by_the_switches): by a relational induction over the chain interpreter (call trees, the swap -> reply -> deposit chain of single-asset provisions, locked deposits calling the farm manager, replies, tolerated refund failures), a pool operation or any transaction to another contract that is accepted both before and after the switches of a pool were changed has exactly the same effect on the whole world - every balance, every contract state - up to the changed switches.",
  "C10": "Added: C10_total_and_user_move_together_unless_a_subtraction_saturates - every weight change moves the contract total and the user's own weight by the same amount, so total - user (the weight of everybody else) is preserved except when a subtraction saturates at zero, which is exactly the class of finding F-sat.",
  "C07": "NEW: the Rewards query equals what an immediate Claim pays for users staking ANY number of LP tokens, in every world reachable from genesis (C07_rewards_query_equals_claim_for_any_number_of_lp_tokens / _in_every_reachable_world; ClaimFrame.v: the claim's walk through the LP denoms is framed denom by denom - weight history and farm budgets of one denom do not influence the rewards of another; farm identifiers are unique by the custody invariant). This supersedes the single-LP restriction mentioned above.",
